@@ -16,7 +16,7 @@
  * The bodies walk a free list (reMax; operator= walks the list of rhs), so the precondition supplies INV at EVERY cell below
  * CAP by explicit conjunction (rep.h, no quantifier) and the loops are unwound completely (bounded by size() <= CAP).
  * Postconditions are stated at havoc'd ghost cells g_g (a number), g_i, g_j (cells) = for all numbers / cells.
- * The arrays have EXACTLY max() cells (symbolic block size): every access outside [0,max()) is a failed obligation. */
+ * Block sizes: see ALLOC_* below (functional instance: constant-size blocks; `_mem` twin: exact blocks, memory safety only). */
 #include "verif_c.h"
 #ifndef CAP
 #define CAP 4
@@ -106,12 +106,27 @@ static int inv_ghosts(clp item, clp key, cip rank, int themax, int sz, int nm, i
 #define R_R4ROW(a) REP_ALLB(R_R4, a)
 #define R_INV_ALL (s_ok(rmax, rsize, rnum) && REP_ALL(R_K) && REP_ALL(R_U) && r05(ritem, rrank, rmax, rsize, rnum, rff) && REP_ALL(R_R123) && REP_ALL(R_R4ROW))
 
+/* Default (functional instances): every block has a CONSTANT number of cells >= max() (CAP for the operands, 2*CAP+1
+ * for blocks obtained from malloc/realloc): small SAT encoding, full postcondition.  EXACT_ALLOC (the `_mem` twin of each
+ * instance): every block has EXACTLY the number of cells the code asked for (symbolic block sizes: every access outside
+ * [0,max()) is a failed obligation) and only memory safety, frame and the callee preconditions are kept (ENSURES -> true). */
+#ifdef EXACT_ALLOC
+#define ALLOC_T TM
+#define ALLOC_R rmax
+#define ALLOC_NEW(n) (n)
+#define ENSURES(e) __CPROVER_ensures(1)
+#else
+#define ALLOC_T CAP
+#define ALLOC_R CAP
+#define ALLOC_NEW(n) ((2 * CAP + 1) * sizeof(long long))
+#define ENSURES(e) __CPROVER_ensures(e)
+#endif
 #define FRESH_SCALARS (__CPROVER_is_fresh(themax, sizeof(int)) && __CPROVER_is_fresh(thesize, sizeof(int)) \
    && __CPROVER_is_fresh(thenum, sizeof(int)) && __CPROVER_is_fresh(firstfree, sizeof(int)))
-#define FRESH_THIS (FRESH_SCALARS && 1 <= TM && TM <= CAP && __CPROVER_is_fresh(item, TM * sizeof(long long)) \
-   && __CPROVER_is_fresh(key, TM * sizeof(long long)) && __CPROVER_is_fresh(rank, TM * sizeof(int)))
-#define FRESH_RHS (1 <= rmax && rmax <= CAP && __CPROVER_is_fresh(ritem, rmax * sizeof(long long)) \
-   && __CPROVER_is_fresh(rkey, rmax * sizeof(long long)) && __CPROVER_is_fresh(rrank, rmax * sizeof(int)))
+#define FRESH_THIS (FRESH_SCALARS && 1 <= TM && TM <= CAP && __CPROVER_is_fresh(item, ALLOC_T * sizeof(long long)) \
+   && __CPROVER_is_fresh(key, ALLOC_T * sizeof(long long)) && __CPROVER_is_fresh(rank, ALLOC_T * sizeof(int)))
+#define FRESH_RHS (1 <= rmax && rmax <= CAP && __CPROVER_is_fresh(ritem, ALLOC_R * sizeof(long long)) \
+   && __CPROVER_is_fresh(rkey, ALLOC_R * sizeof(long long)) && __CPROVER_is_fresh(rrank, ALLOC_R * sizeof(int)))
 /* the post-state arrays are blocks of max() cells (one cell if max() == 0: spx_realloc(p, 0) allocates one element) */
 #define BLOCKS_OK (__CPROVER_rw_ok(RET, (TM > 0 ? TM : 1) * sizeof(long long)) && __CPROVER_rw_ok(gp_key, (TM > 0 ? TM : 1) * sizeof(long long)))
 
@@ -125,8 +140,28 @@ __CPROVER_requires(0 < n && n <= (2 * CAP + 1) * sizeof(long long) && __CPROVER_
 __CPROVER_requires(0 < g_m0 && g_m0 <= CAP && __CPROVER_OBJECT_SIZE(p) == g_m0 * sizeof(long long) && __CPROVER_r_ok(p, g_m0 * sizeof(long long)))
 __CPROVER_assigns()
 __CPROVER_frees(p)
-__CPROVER_ensures(__CPROVER_is_fresh(__CPROVER_return_value, n))
+__CPROVER_ensures(__CPROVER_is_fresh(__CPROVER_return_value, ALLOC_NEW(n)))
 __CPROVER_ensures(REP_ALL(RC))
+;
+
+/* malloc (successful), as a contract: a fresh block of n bytes */
+void* verif_malloc(size_t n)
+__CPROVER_requires(0 < n && n <= (2 * CAP + 1) * sizeof(long long))
+__CPROVER_assigns()
+__CPROVER_ensures(__CPROVER_is_fresh(__CPROVER_return_value, ALLOC_NEW(n)))
+;
+
+/* ISO C memcpy as a contract (CBMC's library model of a copy of symbolic length between blocks of symbolic size exhausts
+ * memory): n is a whole number of 8-byte cells; both ranges valid; the destination range receives the source range
+ * (stated for each of the at most CAP cells); nothing else is written. */
+#define MC(i) (!((size_t)(i) * sizeof(long long) < n) \
+   || ((const long long*)dst)[i] == __CPROVER_old(((const long long*)src)[(size_t)(i) * sizeof(long long) < n ? (i) : 0]))
+void* verif_memcpy(void* dst, const void* src, size_t n)
+__CPROVER_requires(n % sizeof(long long) == 0 && n <= CAP * sizeof(long long))
+__CPROVER_requires(__CPROVER_r_ok(src, n) && __CPROVER_w_ok(dst, n) && !__CPROVER_same_object(dst, src))
+__CPROVER_assigns(__CPROVER_object_upto(dst, n))
+__CPROVER_ensures(__CPROVER_return_value == dst)
+__CPROVER_ensures(REP_ALL(MC))
 ;
 
 /* ---------------------------------------------------------------------------------------------------------------- */
@@ -134,28 +169,31 @@ __CPROVER_ensures(REP_ALL(RC))
 /* reMax(newmax): max() becomes max(newmax, size()) [reMax(): size()]; num(), size() unchanged; every cell below size()
  * keeps its DATA and its info, except that the end-of-free-list marker -oldmax-1 becomes -newmax-1 (in the last free
  * cell, or in firstfree if there is no free cell); every key is unchanged; hence every element keeps key, number and
- * DATA, and INV holds for the re-allocated arrays with the SAME rank function (the free list survives). */
+ * DATA, and INV holds for the re-allocated arrays with the SAME rank function (the free list survives).  The value returned
+ * is the distance in bytes between the new and the old item array (flat address space, see unit.cpp). */
 #define NEWMAX  ((usedefault ? 0 : newmax) < g_s0 ? g_s0 : (usedefault ? 0 : newmax))
 #define MAPEND(x) ((x) == -g_t0 - 1 ? -NEWMAX - 1 : (x))
 long long* w_reMax(long long* item, long long* key, int* themax, int* thesize, int* thenum, int* firstfree, int newmax,
-                   int usedefault, const int* rank)
+                   int usedefault, long* delta, const int* rank)
+__CPROVER_requires(__CPROVER_is_fresh(delta, sizeof(long)))
 __CPROVER_requires(FRESH_THIS && -2 * CAP <= newmax && newmax <= 2 * CAP)
 __CPROVER_requires(T_INV_ALL)
-__CPROVER_requires(g_m0 == TM && g_t0 == TM && g_s0 == SZ && g_n0 == NM && g_f0 == FF)
+__CPROVER_requires(g_m0 == ALLOC_T && g_t0 == TM && g_s0 == SZ && g_n0 == NM && g_f0 == FF)
 __CPROVER_requires(!(0 <= g_i && g_i < SZ) || (v_a == HI32(item[g_i]) && v_dat == LO32(item[g_i])))
 __CPROVER_requires(!(0 <= g_g && g_g < NM) || v_key == key[g_g])
-__CPROVER_assigns(gp_key, __CPROVER_object_whole(item), __CPROVER_object_whole(key), *themax, *thesize, *thenum, *firstfree)
+__CPROVER_assigns(gp_key, __CPROVER_object_whole(item), __CPROVER_object_whole(key), *themax, *thesize, *thenum, *firstfree, *delta)
 __CPROVER_frees(item, key)
-__CPROVER_ensures(TM == NEWMAX && SZ == g_s0 && NM == g_n0 && FF == MAPEND(g_f0) && BLOCKS_OK)
-__CPROVER_ensures(!(0 <= g_i && g_i < g_s0) || (LO32(RET[g_i]) == v_dat && HI32(RET[g_i]) == MAPEND(v_a)))
-__CPROVER_ensures(!(0 <= g_g && g_g < g_n0) || gp_key[g_g] == v_key)
-__CPROVER_ensures(inv_ghosts(RET, gp_key, rank, TM, SZ, NM, FF, g_g, g_i, g_j))
+ENSURES(*delta == (long)RET - (long)item)
+ENSURES(TM == NEWMAX && SZ == g_s0 && NM == g_n0 && FF == MAPEND(g_f0) && BLOCKS_OK)
+ENSURES(!(0 <= g_i && g_i < g_s0) || (LO32(RET[g_i]) == v_dat && HI32(RET[g_i]) == MAPEND(v_a)))
+ENSURES(!(0 <= g_g && g_g < g_n0) || gp_key[g_g] == v_key)
+ENSURES(inv_ghosts(RET, gp_key, rank, TM, SZ, NM, FF, g_g, g_i, g_j))
 ;
 void h_reMax(void)
 {
-   long long* item; long long* key; int* themax; int* thesize; int* thenum; int* firstfree; int newmax, usedefault; const int* rank;
+   long long* item; long long* key; int* themax; int* thesize; int* thenum; int* firstfree; int newmax, usedefault; long* delta; const int* rank;
    havoc_ghosts();
-   w_reMax(item, key, themax, thesize, thenum, firstfree, newmax, usedefault, rank);
+   w_reMax(item, key, themax, thesize, thenum, firstfree, newmax, usedefault, delta, rank);
    CANARY();
 }
 #endif
@@ -170,10 +208,10 @@ void h_reMax(void)
 __CPROVER_requires(!(0 <= g_i && g_i < rsize) || (v_a == HI32(ritem[g_i]) && v_dat == LO32(ritem[g_i]))) \
 __CPROVER_requires(!(0 <= g_g && g_g < rnum) || v_key == rkey[g_g])
 #define COPY_ENSURES(c) \
-__CPROVER_ensures(!(c) || (SZ == rsize && NM == rnum && FF == MAPR(rff) && BLOCKS_OK)) \
-__CPROVER_ensures(!((c) && 0 <= g_i && g_i < rsize) || (LO32(RET[g_i]) == v_dat && HI32(RET[g_i]) == MAPR(v_a))) \
-__CPROVER_ensures(!((c) && 0 <= g_g && g_g < rnum) || (gp_key[g_g] == v_key && HI32(RET[HI32(v_key)]) == g_g)) \
-__CPROVER_ensures(!(c) || inv_ghosts(RET, gp_key, rrank, TM, SZ, NM, FF, g_g, g_i, g_j))
+ENSURES(!(c) || (SZ == rsize && NM == rnum && FF == MAPR(rff) && BLOCKS_OK)) \
+ENSURES(!((c) && 0 <= g_i && g_i < rsize) || (LO32(RET[g_i]) == v_dat && HI32(RET[g_i]) == MAPR(v_a))) \
+ENSURES(!((c) && 0 <= g_g && g_g < rnum) || gp_key[g_g] == v_key) \
+ENSURES(!(c) || inv_ghosts(RET, gp_key, rrank, TM, SZ, NM, FF, g_g, g_i, g_j))
 
 #ifdef INST_assign
 /* operator=: additionally max() == max(old max(), rhs.size()); rhs is not modified (frame); *this is returned;
@@ -184,16 +222,16 @@ long long* w_assign(long long* item, long long* key, int* themax, int* thesize, 
 __CPROVER_requires(FRESH_THIS && FRESH_RHS && __CPROVER_is_fresh(ret_is_this, sizeof(int)))
 __CPROVER_requires(T_INV_ALL)
 __CPROVER_requires(R_INV_ALL)
-__CPROVER_requires(g_m0 == TM && g_t0 == TM && g_s0 == SZ && g_n0 == NM && g_f0 == FF)
+__CPROVER_requires(g_m0 == ALLOC_T && g_t0 == TM && g_s0 == SZ && g_n0 == NM && g_f0 == FF)
 COPY_REQUIRES
 __CPROVER_requires(!(0 <= g_i && g_i < SZ) || v_cell == item[g_i])
 __CPROVER_requires(!(0 <= g_g && g_g < NM) || v_key2 == key[g_g])
 __CPROVER_assigns(gp_key, __CPROVER_object_whole(item), __CPROVER_object_whole(key), *themax, *thesize, *thenum, *firstfree, *ret_is_this)
 __CPROVER_frees(item, key)
-__CPROVER_ensures(*ret_is_this == 1)
-__CPROVER_ensures(self || TM == (rsize > g_t0 ? rsize : g_t0))
+ENSURES(*ret_is_this == 1)
+ENSURES(self || TM == (rsize > g_t0 ? rsize : g_t0))
 COPY_ENSURES(!self)
-__CPROVER_ensures(!self || (RET == item && gp_key == key && TM == g_t0 && SZ == g_s0 && NM == g_n0 && FF == g_f0
+ENSURES(!self || (RET == item && gp_key == key && TM == g_t0 && SZ == g_s0 && NM == g_n0 && FF == g_f0
    && (!(0 <= g_i && g_i < g_s0) || item[g_i] == v_cell) && (!(0 <= g_g && g_g < g_n0) || key[g_g] == v_key2)))
 ;
 void h_assign(void)
@@ -215,7 +253,7 @@ __CPROVER_requires(FRESH_SCALARS && FRESH_RHS)
 __CPROVER_requires(inv_ghosts(ritem, rkey, rrank, rmax, rsize, rnum, rff, g_g, g_i, g_j))
 COPY_REQUIRES
 __CPROVER_assigns(gp_key, *themax, *thesize, *thenum, *firstfree)
-__CPROVER_ensures(TM == rmax)
+ENSURES(TM == rmax)
 COPY_ENSURES(1)
 ;
 void h_copyctor(void)
